@@ -292,6 +292,20 @@ func runC19(c *Ctx) {
 				case isCallNamed(a, fnName(sv)):
 					s = "sortedVals"
 				default:
+					// the appended literal element as resolved on this path (it may come out of a small table)
+					if els := ev.Elems[1]; len(els) == 1 {
+						switch {
+						case isCallNamed(els[0].V, "(*proto/gnmi.Path).GetTarget"):
+							s = "target"
+						case isCallNamed(els[0].V, "(*proto/gnmi.Path).GetOrigin"):
+							s = "origin"
+						case isCallNamed(els[0].V, "(*proto/gnmi.PathElem).GetName"):
+							s = "name"
+						}
+						if !strings.HasPrefix(s, "?") {
+							break
+						}
+					}
 					if sl, ok := a.(*ssa.Slice); ok {
 						if al, ok := sl.X.(*ssa.Alloc); ok {
 							for _, r := range *al.Referrers() {
